@@ -5,6 +5,7 @@ package promsim
 import (
 	"context"
 	"fmt"
+	"github.com/prometheus/common/model"
 	"go.opentelemetry.io/otel/sdk/metric/metricdata"
 	"math"
 	"sort"
@@ -251,6 +252,16 @@ func (engine) Body(r *simdrv.Run) {
 		popts = append(popts, otelprom.WithResourceAsConstantLabels(attribute.NewAllowKeysFilter("service.name", "deployment")))
 		optDesc = append(optDesc, "resource-as-constant-labels")
 	}
+	// The legacy name validation scheme of prometheus/common (a process-wide setting, put back every run)
+	// makes the exporter sanitise attribute keys; a third of the instruments then record with three constant
+	// attributes of which two collide after sanitisation and the third sorts between them: they must be
+	// merged into one label, not dropped with the data point (after seeded change C18-g).
+	legacy := r.Cfg(3) == 0
+	model.NameValidationScheme = model.UTF8Validation //nolint:staticcheck // the exporter reads this global
+	if legacy {
+		model.NameValidationScheme = model.LegacyValidation //nolint:staticcheck
+		optDesc = append(optDesc, "legacy-name-validation")
+	}
 	lateWire := r.Cfg(4) == 0
 	wireSleep := []time.Duration{0, time.Millisecond}[r.Cfg(2)]
 	if lateWire {
@@ -365,7 +376,11 @@ func (engine) Body(r *simdrv.Run) {
 				in.nextBit++
 				w.meas = append(w.meas, mo)
 				v := int64(1) << mo.bit
-				attrs := metric.WithAttributes(attribute.String("inst", fmt.Sprintf("i%d%s", in.idx, sub)))
+				kvs := []attribute.KeyValue{attribute.String("inst", fmt.Sprintf("i%d%s", in.idx, sub))}
+				if in.idx%3 == 1 {
+					kvs = append(kvs, attribute.String("http.method", "GET"), attribute.String("http.route", "/x"), attribute.String("http_method", "POST"))
+				}
+				attrs := metric.WithAttributes(kvs...)
 				ctx := context.Background()
 				switch in.kind {
 				case "counter_i":
